@@ -149,11 +149,13 @@ package geometry
 
 // abstract model of a *baseSeries (the property's segment rule: an open series of n points has n-1
 // segments; a closed one gets an implicit closing segment exactly when its last point differs from its first)
-//@ spec func bsNseg(s *baseSeries) int {
-//@     ite(s.closed, ite(len(s.points) < 3, 0, ite(s.points[len(s.points)-1] == s.points[0], len(s.points)-1, len(s.points))),
-//@                   ite(len(s.points) < 2, 0, len(s.points)-1)) }
+//@ spec func nsegOf(ps []Point, closed bool) int {
+//@     ite(closed, ite(len(ps) < 3, 0, ite(ps[len(ps)-1] == ps[0], len(ps)-1, len(ps))),
+//@                 ite(len(ps) < 2, 0, len(ps)-1)) }
+//@ spec func bsNseg(s *baseSeries) int { nsegOf(s.points, s.closed) }
 //@ spec func ptAt(ps []Point, i int) Point opaque { ps[i] }
-//@ spec func bsSeg(s *baseSeries, i int) Segment { mkSegment(ptAt(s.points,i), ite(i == len(s.points)-1, ptAt(s.points,0), ptAt(s.points,i+1))) }
+//@ spec func segOf(ps []Point, i int) Segment { mkSegment(ptAt(ps,i), ite(i == len(ps)-1, ptAt(ps,0), ptAt(ps,i+1))) }
+//@ spec func bsSeg(s *baseSeries, i int) Segment { segOf(s.points, i) }
 //@ spec func segRect(g Segment) Rect { mkRect(mkPoint(min(g.A.X,g.B.X), min(g.A.Y,g.B.Y)), mkPoint(max(g.A.X,g.B.X), max(g.A.Y,g.B.Y))) }
 //@ spec func rectsMeet(a Rect, b Rect) bool { !(a.Min.Y > b.Max.Y || a.Max.Y < b.Min.Y || a.Min.X > b.Max.X || a.Max.X < b.Min.X) }
 //@ spec func rectPt(r Rect, i int) Point { ite(i == 1, mkPoint(r.Max.X, r.Min.Y), ite(i == 2, mkPoint(r.Max.X, r.Max.Y), ite(i == 3, mkPoint(r.Min.X, r.Max.Y), mkPoint(r.Min.X, r.Min.Y)))) }
@@ -769,3 +771,29 @@ package geometry
 //@   props C18
 //@   requires poly != nil ==> PolyInv(poly)
 //@   ensures result == (poly != nil && polyExt(poly) != nil && sClockwise(polyExt(poly)))
+
+// ---------------------------------------------------------------- C04: number encoding of the compressed indexes
+
+//@ spec func widthOf(ibytes int) int { ite(ibytes == 1, 1, ite(ibytes == 2, 2, 4)) }
+//@ spec func numAt(d []byte, o int, ibytes int) int { ite(ibytes == 1, d[o], ite(ibytes == 2, d[o] + 256*d[o+1], le32(d,o))) }
+//@ spec func numBytesOf(n int) int { ite(n <= 255, 1, ite(n <= 65535, 2, 4)) }
+
+//@ func numBytes
+//@   props C04
+//@   arith order
+//@   ensures result == numBytesOf(n)
+
+//@ func appendNum
+//@   props C04
+//@   arith order
+//@   requires Fits: (ibytes == 1 ==> num <= 255) && (ibytes == 2 ==> num <= 65535)
+//@   ensures Len: len(result) == len(dst) + widthOf(ibytes)
+//@   ensures Prefix: forall k int :: 0 <= k && k < len(dst) ==> result[k] == dst[k]
+//@   ensures Value: numAt(result, len(dst), ibytes) == num
+//@   ensures Bytes: forall k int :: len(dst) <= k && k < len(result) ==> 0 <= result[k] && result[k] <= 255
+
+//@ func readNum
+//@   props C04
+//@   arith order
+//@   requires len(data) >= widthOf(ibytes)
+//@   ensures result == numAt(data, 0, ibytes)
